@@ -144,7 +144,8 @@ CLAIMS = {
  'C10': dict(
     text='Proved for the model: each of the 13 markers is recognised by the generated list rules with itself as list id and mapped to ul/ol/dl with li or dt/dd (decided over '
          'the whole finite marker table in the kernel); after an item a next item whose id is on the stack of open lists is handed back to the enclosing lists, any other '
-         'id opens a child list inside the current item; two blank lines or end of input end the item loop. The marker-machine = tree-specification theorem is not proved; '
+         'id opens a child list inside the current item; two blank lines or end of input end the item loop; a list - whatever it nests: child lists, attached blocks, '
+         'containers with lists of their own - returns with the stack of open markers exactly as it found it, and never pops it when empty. The marker-machine = tree-specification theorem is not proved; '
          'generated list trees (depth 4, mixed kinds, attached blocks, blank lines, following block) are compared with the tree the generator built.',
     note=COMMON_NOTE + 'Partial: classification table and the two branch theorems are proofs; the full tree equivalence is exploration.',
     technique='Lean 4 proof (exhaustive kernel evaluation over the marker table, item-loop equations) + list-tree oracle',
